@@ -29,7 +29,13 @@ namespace
 {
     I64      us(DateTime t) { return t.time_since_epoch().count(); }
     DateTime dt(I64 v) { return DateTime{TimeDelta{v}}; }
-    I64      as_i(const ValueView &v) { return v.checked_as<I64>(); }
+    // Scalar type of keys / elements / dictionary values for the slot-backed kinds (1 TSS, 2 TSD, 4 nested): header
+    // field p1 = 1 selects int32.  Keys whose alignment is below a pointer's use the BITMAP representation of the
+    // stable slot store (constructed / live bitmaps), pointer-aligned keys (int64) the tagged-pointer one: both
+    // must behave the same, so both are driven.  Windows and fixed shapes always use int64.
+    bool g_i32 = false;
+    I64   as_i(const ValueView &v) { return g_i32 ? (I64)v.checked_as<std::int32_t>() : v.checked_as<I64>(); }
+    Value mk(I64 x) { return g_i32 ? Value{(std::int32_t)x} : Value{x}; }
 
     struct Op { I64 code, a, b; };
     struct Cycle { I64 t; std::vector<Op> ops; };
@@ -78,8 +84,8 @@ namespace
             I64 r = 0;
             switch (op.code)
             {
-                case 1: { Value k{op.a}; r = m.add(k.view()); break; }
-                case 2: { Value k{op.a}; r = m.remove(k.view()); break; }
+                case 1: { Value k{mk(op.a)}; r = m.add(k.view()); break; }
+                case 2: { Value k{mk(op.a)}; r = m.remove(k.view()); break; }
                 case 3: m.clear(); break;
                 case 4: m.reserve((std::size_t)op.a); break;
                 case 5: m.touch(); break;
@@ -138,12 +144,12 @@ namespace
             I64 r = 0;
             switch (op.code)
             {
-                case 1: { Value k{op.a}; Value v{op.b}; m.set(k.view(), v.view()); break; }
-                case 2: { Value k{op.a}; r = m.erase(k.view()); break; }
+                case 1: { Value k{mk(op.a)}; Value v{mk(op.b)}; m.set(k.view(), v.view()); break; }
+                case 2: { Value k{mk(op.a)}; r = m.erase(k.view()); break; }
                 case 3: m.clear(); break;
                 case 4: m.reserve((std::size_t)op.a); break;
                 case 5: m.touch(); break;
-                case 6: { Value k{op.a}; auto ch = m.at(k.view()); r = (I64)ch.child_id(); break; }
+                case 6: { Value k{mk(op.a)}; auto ch = m.at(k.view()); r = (I64)ch.child_id(); break; }
                 default: r = -1; break;
             }
             res.push_back(r);
@@ -270,15 +276,15 @@ namespace
             I64 r = 0;
             switch (op.code)
             {
-                case 1: { Value k{op.a}; Value e{op.b}; auto ch = m.at(k.view()); auto cs = ch.as_set(); auto cm = cs.begin_mutation(t); r = cm.add(e.view()); break; }
+                case 1: { Value k{mk(op.a)}; Value e{mk(op.b)}; auto ch = m.at(k.view()); auto cs = ch.as_set(); auto cm = cs.begin_mutation(t); r = cm.add(e.view()); break; }
                 case 2:
                 {
-                    Value k{op.a}; Value e{op.b};
+                    Value k{mk(op.a)}; Value e{mk(op.b)};
                     if (!m.contains(k.view())) { r = -2; break; }
                     auto ch = m.at(k.view()); auto cs = ch.as_set(); auto cm = cs.begin_mutation(t); r = cm.remove(e.view());
                     break;
                 }
-                case 3: { Value k{op.a}; r = m.erase(k.view()); break; }
+                case 3: { Value k{mk(op.a)}; r = m.erase(k.view()); break; }
                 case 4: m.clear(); break;
                 default: r = -1; break;
             }
@@ -405,7 +411,7 @@ namespace
     void run_standalone(const Script &s, hgv::Out &out)
     {
         auto       &registry = TypeRegistry::instance();
-        const auto *int_meta = registry.register_scalar<I64>("int64");
+        const auto *int_meta = g_i32 ? registry.register_scalar<std::int32_t>("int32") : registry.register_scalar<I64>("int64");
         const auto *ts_int   = registry.ts(int_meta);
         if (s.kind == 1)
         {
@@ -511,7 +517,7 @@ namespace
     {
         if (s.cycles.empty()) { return; }
         auto       &registry = TypeRegistry::instance();
-        const auto *int_meta = registry.register_scalar<I64>("int64");
+        const auto *int_meta = g_i32 ? registry.register_scalar<std::int32_t>("int32") : registry.register_scalar<I64>("int64");
         const auto *ts_int   = registry.ts(int_meta);
         const TSValueTypeMetaData *schema = nullptr;
         if (s.kind == 1) { schema = registry.tss(int_meta); }
@@ -620,6 +626,7 @@ namespace
     void run_case(const hgv::Case &c, hgv::Out &out)
     {
         Script s = parse(c);
+        g_i32 = (s.kind == 1 || s.kind == 2 || s.kind == 4) && s.p1 == 1;
         try
         {
             if (s.mode == 1) { run_graph(s, out); } else { run_standalone(s, out); }
